@@ -395,6 +395,45 @@ pub fn run(ctx: &Ctx) -> (Level, Report) {
 		report.stats.class_n(&format!("u{bits}:boundary±4096"), vals.len() as u64);
 	}
 
+	// ---- 1b. every boundary value re-encoded in every mode able to hold it (non-minimal forms, leading
+	// zero bytes): the decoder of every width must agree with the reference on each of them
+	for bits in WIDTHS {
+		let mut vals = boundary_values(128.min(bits.max(32) * 2));
+		vals.sort();
+		vals.dedup();
+		let chunks: Vec<&[u128]> = vals.chunks(vals.len() / ctx.threads + 1).collect();
+		let res = parallel_map(chunks.len(), ctx.threads, |i| {
+			let mut first = None;
+			let mut n = 0u64;
+			for x in chunks[i] {
+				for mode in 0..4u8 {
+					for extra in 0..3usize {
+						if mode < 3 && extra > 0 {
+							continue;
+						}
+						if let Some(sv) = psc_model::mutate::compact_in_mode(*x, mode, extra) {
+							n += 1;
+							if let Err(v) = string_guarded(bits, &sv) {
+								first.get_or_insert((v, sv));
+							}
+						}
+					}
+				}
+			}
+			(n, first)
+		});
+		let mut total = 0;
+		for (n, first) in res {
+			total += n;
+			if let Some((v, sv)) = first {
+				report.direct(&known, v, json!({"kind": "string", "bits": bits, "bytes": hex_full(&sv)}));
+			}
+		}
+		report.stats.evaluations += total;
+		report.stats.nontrivial_extra += total - total / 8;
+		report.stats.class_n(&format!("u{bits}:boundary-values-in-every-mode(non-minimal forms)"), total);
+	}
+
 	// ---- 2. exhaustive values: u8, u16 (full relations), u32 (fast relations; thorough: all 2^32)
 	for bits in [8u32, 16] {
 		let total = 1u128 << bits;
